@@ -255,10 +255,11 @@ pub fn main_gen(args: &[String]) {
         for (a, d) in &attrs {
             // typed attributes are added as such, unknown ones as raw attributes; sometimes a typed one via its raw form
             let as_raw = rng.gen_bool(0.2);
-            let r = if as_raw { raws.push(a.to_raw().into_owned()); Ok(()) } else { b.add_attribute(a.as_ref()) };
-            if r.is_ok() { descs.push(json!({"d": d, "as_raw": as_raw})); }
+            if as_raw { raws.push((a.to_raw().into_owned(), d)); } else if b.add_attribute(a.as_ref()).is_ok() { descs.push(json!({"d": d, "as_raw": false})); }
         }
-        for r in raws { let _ = b.add_raw_attribute(r); }
+        // (two generated attributes may share a type - two unknown attributes drawn from the same short list of boundary type
+        // codes: the builder rightly refuses the second one, which is then not among the attributes the message was built from)
+        for (r, d) in raws { if b.add_raw_attribute(r).is_ok() { descs.push(json!({"d": d, "as_raw": true})); } }
         let cred = rand_cred(&mut rng);
         let seal = rng.gen_range(0..8);     // bit0 sha1, bit1 sha256, bit2 fingerprint
         let by_ext = rng.gen_bool(0.5);
@@ -429,6 +430,12 @@ pub fn main_genops(args: &[String]) {
         pool.push(Box::new(ErrorCode::new(*[300u16, 420, 699].choose(&mut rng).unwrap(), "").unwrap()));
         pool.push(Box::new(Software::new("another software").unwrap()));
         pool.push(rand_attr(&mut rng, kinds[0], tid).0);
+        // an ERROR-CODE whose reason is longer than a decoder takes (if the constructor lets it through): the builder's rules
+        // and its serialisation paths (typed writer, raw form after into_owned) do not depend on that
+        if i % 5 == 2 {
+            let long: String = std::iter::repeat("reason ").take(120).collect();
+            if let Ok(e) = ErrorCode::new(500, &long) { pool.push(Box::new(e)); }
+        }
         let origin = rng.gen_range(0..7);
         let (start, mut b): (&str, MessageBuilder) = match origin {
             0 => ("builder_success", Message::builder_success(req)),
